@@ -228,7 +228,32 @@ async def main():
         await (usim.time + 1)
         await flag.set()
     out.append(['wake', order])
+    # truth values of every kind of notification / condition object (assertion mode must not change them)
+    t = usim.Tracked(3)
+    objs = [usim.time + 3, usim.time >= 1, usim.time >= 99, usim.time == 99, usim.time < 5, usim.eternity, usim.instant,
+            usim.Flag(), t >= 2, t < 2, (usim.time >= 1) & (t >= 2), ~usim.Flag()]
+    vals = []
+    for o in objs:
+        try:
+            vals.append(bool(o))
+        except BaseException as e:
+            vals.append(type(e).__name__)
+    out.append(['truthy', vals])
 usim.run(main())
+# one condition object (module level) used by several simulations in a row, next to unrelated allocations: every one of them
+# is woken at the date
+cond, moment, resumed = usim.time >= 2, usim.time == 3, []
+async def waits(k):
+    junk = [[i] * (k * 7 % 5 + 1) for i in range(50 * k)]
+    await cond
+    await moment
+    resumed.append([k, usim.time.now])
+import gc
+for k in range(8):
+    usim.run(waits(k))
+    if k % 3 != 2:
+        gc.collect()      # frees the finished loop (it sits in reference cycles): its address is up for reuse
+out.append(['reused', resumed])
 # the SimPy layer: processes and timeouts registered before the run start / fire in the order of registration
 from usim.py import Environment
 env = Environment()
@@ -279,6 +304,10 @@ def direct_programs(ctx):
     if got != [want]:
         ctx.fail({'direct_program': 'default', 'program': DIRECT}, 'processes registered before env.run() in the order 0..4 ran in the '
                  'order %r' % (got,), family='direct')
+    got = [x[1] for x in base if x[0] == 'reused']
+    if got != [[[k, 3] for k in range(8)]]:
+        ctx.fail({'direct_program': 'default', 'program': DIRECT}, 'a `time >= 2` and a `time == 3` object used by eight simulations in '
+                 'a row: they resumed at %r' % (got,), family='direct')
     got = [x[1] for x in base if x[0] == 'wake']
     if got != [list(range(7))]:
         ctx.fail({'direct_program': 'default', 'program': DIRECT}, 'seven waiters of one flag (subscribed 0..6) woke in the order %r'
